@@ -219,11 +219,13 @@ func worldUDP(w *World) {
 			defer wg.Done()
 			for i := 0; i < per; i++ {
 				n := 12
-				switch ur.Intn(5) {
+				switch ur.Intn(6) {
 				case 0:
 					n = 12
 				case 1:
 					n = 12 + ur.Intn(100)
+				case 5:
+					n = maxPayload // exactly the configured packet size (its reply would be too long: the backend stays silent)
 				case 2:
 					n = maxPayload - 1 // the reply is one byte longer
 				default:
